@@ -2,7 +2,7 @@
 # C02/C08: with a `group -S --isolate` report a symbolic link under a retained root and the file
 # it points to under another root are split: the file is removed, the retained (even
 # --keep-path protected) link is left dangling.
-CHECKOUT=${1:-/tmp/hunt/n2}
+CHECKOUT=${1:-/repo}
 F=$CHECKOUT/target/debug/fclones
 D=$(mktemp -d); trap 'rm -rf "$D"' EXIT
 cd "$D"; mkdir d1 d2 d3
